@@ -51,3 +51,15 @@ Proof. exact deq_repaired_partition. Qed.
 Theorem C20_repaired_symmetric : forall a b, deq_repaired a (Some b) = deq_repaired b (Some a).
 Proof. exact deq_repaired_sym. Qed.
 Print Assumptions C20_repaired_symmetric.
+
+(* K9: the comparison of an int64 array with a float64 array goes through the conversion of the
+   integers to doubles (Rounding.v: round to nearest, ties to even, 53 bits): different numbers
+   can compare equal.  The statement "equal only if the data are element-wise equal" is refuted
+   for mixed dtypes beyond 2^53; below 2^53 the conversion is exact. *)
+From Dendro Require Import Rounding.
+Theorem C20_mixed_dtype_refuted :
+  exists i d, d = to_double i /\ i <> d /\ numpy_int_eq_double i d = true.
+Proof. exact mixed_dtype_equality_refuted. Qed.
+Theorem C20_mixed_dtype_exact_below_2_53 : forall z, Z.abs z < 2 ^ 53 -> to_double z = z.
+Proof. exact to_double_exact. Qed.
+Print Assumptions C20_mixed_dtype_refuted.
